@@ -66,6 +66,15 @@ def cases(tier, seed):
                     dict(kind="param", n=n, b=b, ranges={"nu": [0.5, 2.0], "mu": [-1.0, 1.0]},
                          user={"mu": [float(3 * j + 1) for j in range(n)]}),
                 ]
+                if mode == "eager" and n >= 2:
+                    # n_start / nt_start are "hidden from the user" (ignored) when no RAR is requested: passing them must not
+                    # change the epoch
+                    cfgs += [
+                        dict(kind="ode", nt=n, bt=b, tmin=0.0, tmax=1.0, method="uniform", nt_start=max(1, n - 1)),
+                        dict(kind="statio", n=n, bx=b, dim=1, min_pts=[-1.0], max_pts=[2.0], nb=None, bb=None, n_start=max(1, n - 1)),
+                        dict(kind="nonstatio", nt=n, bt=b, n=n2, bx=b2, dim=1, min_pts=[0.0], max_pts=[1.0], nb=None, bb=None,
+                             n_start=max(1, n2 - 1), nt_start=max(1, n - 1)),
+                    ]
                 for cfg in cfgs:
                     cfg.update(base)
                     if mode == "jit" and cfg["kind"] == "param":
